@@ -798,7 +798,9 @@ class StepHarness:
         lm = inner.f[F['last_match']]
         if not (isinstance(lm, E) and lm.v == 'None'):
             if not rs.done:
-                mm({'progress'}, 'a saved match survives the call')
+                # after an error the lexer must continue "with an empty current match" and the following tokens must be
+                # the reference's (C08): a saved match that survives the failing call is replayed by a later failure
+                mm({'progress', 'recover'} if info.get('error') else {'progress'}, 'a saved match survives the call')
         it = inner.f[F['__iter']]
         pos = it.f[0].p[0]
         peeked = it.f[1]
